@@ -312,10 +312,17 @@ def run_manager(rounds: List[Dict[str, Any]], **kw) -> Dict[str, Any]:
         if isinstance(e, (KeyboardInterrupt, SystemExit)):
             raise
         crash = f"{type(e).__name__}: {e}"
+    # run()'s `finally` closes every socket still in the table; on a crash these closes follow the events of the round in
+    # which the exception was raised and are not part of it: the observation of the crash round ends before them
+    crash_end = len(world.events)
+    if crash is not None:
+        while crash_end > 0 and world.events[crash_end - 1][0] == "C" and \
+                any(getattr(c, "uid", None) == world.events[crash_end - 1][1] for c in list(mgr.modules.keys())):
+            crash_end -= 1
     rtma_on = True
     try:
         rtma_on = bool(mgr.logger.enable_rtma)
     except Exception:
         pass
     return {"events": world.events, "marks": ss.round_marks, "crash": crash, "mgr": mgr, "world": world,
-            "rounds_played": ss.i, "rtma_log_enabled": rtma_on}
+            "rounds_played": ss.i, "rtma_log_enabled": rtma_on, "crash_end": crash_end}
